@@ -720,6 +720,12 @@ impl Xot {
             filter(node)
         };
 
+        // attribute and namespace nodes are not part of the (filtered)
+        // traversal; compare them by value
+        if !self.value(a).is_normal() || !self.value(b).is_normal() {
+            return self.advanced_compare_value(a, b, &text_compare);
+        }
+
         let mut edges_a = self.traverse(a).filter(filter_edge);
         let mut edges_b = self.traverse(b).filter(filter_edge);
         for edge_pair in edges_a.by_ref().zip(edges_b.by_ref()) {
